@@ -65,6 +65,10 @@ def cases(tier):
                     for start in range(0, len(floors), CHUNK):
                         out.append({'family': family, 'ncol': ncol, 'nlayer': nlayer, 'positive': positive,
                                     'deep_first': deep_first, 'two': two, 'floors': [list(f) for f in floors[start:start + CHUNK]]})
+                if (ncol, nlayer) == (3, 3) and family in ('cf1d', 'ugrid'):
+                    # two depth coordinates that share the depth dimension (layer depth given both ways)
+                    out.append({'family': family, 'ncol': ncol, 'nlayer': nlayer, 'positive': positive, 'deep_first': deep_first,
+                                'two': False, 'shared': True, 'floors': [list(f) for f in floors[::5]]})
     # the two-coordinate datasets again, in fresh interpreters with fixed hash seeds
     floors = [list(f) for f in itertools.product(range(4), repeat=3)]
     picked = floors[::7] if tier == 'quick' else floors
@@ -128,6 +132,13 @@ def build_dataset(case, floor):
             new_vars[name] = canonical.transpose(*dims)
             expectations[name] = (tuple(d for d in dims if d != depth_dim),
                                   xr.DataArray(floor_values.reshape((nt,) + gshape), dims=(time_dim,) + gdims))
+    shared = None
+    if case.get('shared'):
+        # another coordinate for the same layers with the opposite sign convention, on the same dimension
+        shared = 'depth_alt'
+        ds[shared] = ((depth_dim,), np.array([-sign * (p + 0.5) for p in physical]),
+                      {'positive': 'down' if sign < 0 else 'up', 'standard_name': 'depth', 'axis': 'Z'})
+        ds = ds.set_coords(shared)
     keep = [v for v in ds.data_vars if depth_dim not in ds[v].dims]
     ds = ds[keep + [c for c in ds.coords]].assign(new_vars)
     second = None
@@ -158,7 +169,7 @@ def build_dataset(case, floor):
                     floor_values[t, c] = 90000 + 1000 * t + 100 * (wet2[c] - 1) + c
         ds['salt2'] = (('k2', time_dim) + gdims, values.reshape((n2, nt) + gshape))
         expectations['salt2'] = ((time_dim,) + gdims, xr.DataArray(floor_values.reshape((nt,) + gshape), dims=(time_dim,) + gdims))
-    return ds, truth, expectations, depth_name, second
+    return ds, truth, expectations, depth_name, second, shared
 
 
 def check_result(rec, fp, label, ds, truth, result, expectations, reduced, case):
@@ -200,11 +211,11 @@ def run_case(case):
     for floor in case['floors']:
         if len(set(floor)) > 1:
             rec.nontrivial(tuple(floor))
-        ds, truth, expectations, depth_name, second = build_dataset(case, floor)
+        ds, truth, expectations, depth_name, second, shared = build_dataset(case, floor)
         snapshot = ds.copy(deep=True)
         label = f"floor={floor} positive={case['positive']} deep_first={case['deep_first']} two={case['two']}"
         convention = ds.ems
-        depth_coords = [depth_name] + ([second['name']] if second else [])
+        depth_coords = [depth_name] + ([second['name']] if second else []) + ([shared] if shared else [])
         for api in ('function', 'accessor'):
             try:
                 with warnings.catch_warnings():
